@@ -788,9 +788,26 @@ def check_copies(ctx, t, pname, reparse):
         ctx.violation('copy-raises', dict(inp, how='pickle'), f'{type(ex).__name__}: {ex}')
     if reparse:
         try:
-            copies.append(('reparse', Component.from_ical(b0)))
+            parsed = Component.from_ical(b0)
+            copies.append(('reparse', parsed))
         except Exception as ex:
+            parsed = None
             ctx.violation('copy-raises', dict(inp, how='reparse'), f'{type(ex).__name__}: {ex}')
+        # a tree that came out of the parser is a tree like any other: its deep copy and its pickle are equal
+        # to it and serialise identically (the parser builds unknown component kinds its own way)
+        if parsed is not None:
+            for how, mk in (('deepcopy-of-parsed', copy.deepcopy), ('pickle-of-parsed', lambda x: pickle.loads(pickle.dumps(x)))):
+                try:
+                    c2 = mk(parsed)
+                except Exception as ex:
+                    ctx.violation('copy-raises', dict(inp, how=how), f'{type(ex).__name__}: {ex}')
+                    continue
+                expect_eq(ctx, 'copy:' + how, parsed, c2, dict(inp, how=how), True)
+                try:
+                    if c2.to_ical() != parsed.to_ical():
+                        ctx.violation('copy-bytes', dict(inp, how=how), f'the {how} copy serialises differently')
+                except Exception as ex:
+                    ctx.violation('copy-to_ical-raises', dict(inp, how=how), f'{type(ex).__name__}: {ex}')
     for how, c in copies:
         cls = None
         if how == 'reparse' and has_one_element_list(t):
@@ -863,6 +880,20 @@ def corpus_trees(rng, pname):
     c3.add_component(real_timezone(pname, 'Europe/Berlin'))
     c3.add_component(ev)
     out.append(('with-vtimezone', c3))
+    # VTIMEZONEs below the top level (inside an unknown wrapper, inside an event) next to a top-level one:
+    # walking and the accessors descend to every depth
+    c4 = Calendar()
+    c4.add('prodid', '-//x//')
+    c4.add('version', '2.0')
+    c4.add_component(real_timezone(pname, 'Europe/Berlin'))
+    wrap = new_comp('X-WRAP')
+    wrap.add_component(real_timezone(pname, 'America/New_York'))
+    inner = Event()
+    inner.add('uid', 'u2')
+    inner.add_component(real_timezone(pname, 'Asia/Tokyo'))
+    wrap.add_component(inner)
+    c4.add_component(wrap)
+    out.append(('nested-vtimezones', c4))
     return out
 
 
@@ -909,6 +940,10 @@ def oracle(ctx):
                 trees.append((rand_tree(rng, rng.randint(2, max_depth), [rng.choice([6, 12, 25, 40])], api_only=api,
                                         root=rng.choice(['VCALENDAR', 'VCALENDAR', None])), api))
             for t, api in trees:
+                if rng.random() < 0.35:
+                    for _ in range(rng.randint(1, 2)):
+                        rng.choice(ref_preorder(t)).add_component(
+                            real_timezone(pname, rng.choice(['Europe/Berlin', 'America/New_York', 'Asia/Tokyo'])))
                 n = len(ref_preorder(t))
                 ctx.evaluated(('tree', tree_sig(t), pname), n >= 3)
                 ctx.count('oracle_tree_nodes', n)
